@@ -251,6 +251,33 @@ fn run(ctx: &mut Ctx) {
             check_getter(ctx, &arena, &region, bi::FRAMEBUFFER, Some(8), if b <= 2 { "framebuffer_type/known" } else { "framebuffer_type/unknown" });
         });
     }
+    // ---------------- (f) counts around 8- and 16-bit boundaries
+    ctx.bound("large_counts", "framebuffer palettes of 254..=257 and 1000 colours, memory maps of 255..=257 entries, EFI maps of 255..=257 descriptors, strings / SMBIOS / network contents of 254..=257 and 65534..=65537 bytes");
+    let mut big: Vec<(u32, Vec<u8>)> = vec![];
+    for n in [254usize, 255, 256, 257, 1000] {
+        let pal: Vec<(u8, u8, u8)> = (0..n).map(|i| ((i * 3) as u8, (i * 5 + 1) as u8, (i * 7 + 2) as u8)).collect();
+        big.push((bi::FRAMEBUFFER, bi::enc_framebuffer(0xA0000, 320, 320, 200, 8, 0, &bi::enc_palette(&pal))));
+    }
+    for n in [255usize, 256, 257] {
+        big.push((bi::MMAP, bi::sample(bi::MMAP, 3, n)));
+        big.push((bi::EFI_MMAP, bi::sample(bi::EFI_MMAP, 3, n)));
+    }
+    for n in [254usize, 255, 256, 257, 65534, 65535, 65536, 65537] {
+        for k in [bi::CMDLINE, bi::BOOTLOADER, bi::MODULE, bi::SMBIOS, bi::NETWORK] {
+            big.push((k, bi::sample(k, 3, n)));
+        }
+    }
+    let big_arena = Arena::new(40);
+    for (kind, t) in big {
+        let region = bi::region(&[bi::sample(other_kind(kind), 9, 0), t, bi::end_tag()], &bi::marker_pad);
+        let describe = || J::obj().set("part", "large_counts").set("kind", bi::kind_name(kind)).set("tag_size", rd32(&region, 8 + 16 + 4)).set("region_head", J::hex(&region[..64]));
+        ctx.leaf(describe, |ctx| {
+            ctx.state(hash::hash_bytes(&region));
+            ctx.nontrivial();
+            let want = expected_for(&region, kind);
+            check_getter(ctx, &big_arena, &region, kind, want, "large_counts");
+        });
+    }
     // ---------------- (e) RSDP checksum bytes
     ctx.bound("rsdp", "all 256 values of each checksum byte of an RSDPv1 image and of both checksum bytes of an RSDPv2 image");
     for (kind, at) in [(bi::ACPI1, 16usize), (bi::ACPI2, 16), (bi::ACPI2, 40)] {
